@@ -723,8 +723,9 @@ impl TransactionBuilder {
                         let not_exceed_max = new < max;
                         if move_closer && not_exceed_max {
                             std::mem::swap(i, j);
-                            available_indices.insert(*i);
-                            available_indices.remove(j);
+                            // after the swap `i` is the input now selected and `j` the one released
+                            available_indices.insert(*j);
+                            available_indices.remove(i);
                         }
                     }
                 }
